@@ -8,7 +8,7 @@ TECH = "deterministic simulation with fault injection"
 
 CHECKS = {
     "C01": dict(engine="D1", cat="exploration", ref="DESIGN.md 4/C01",
-        text="Seeded search over preamble contents, record cuts, padding, noise placement, buffer sizes and read schedules; every run is compared field by field with an independent one-shot reference model and re-run under two more schedules. Evidence over the sampled runs, not a proof; directed biases (cuts inside length prefixes, pairs over 3+ records, exact-fill reads, tight buffers) aim the sample at the stated risks.",
+        text="Seeded search over preamble contents, record cuts, padding, noise placement, buffer sizes and read schedules; every run is compared field by field with an independent one-shot reference model and re-run under two more schedules. Evidence over the sampled runs, not a proof; directed biases (cuts inside length prefixes, pairs over 3+ records, exact-fill reads, tight buffers) aim the sample at the stated risks. A quarter of the preambles follow one or two attempts that the client aborted during Params on the same parser object.",
         note="Trusted: the harness's own wire codec and M-preamble (written from the specification); std::String::from_utf8_lossy as the lossy-decoding reference. Assumes buffer >= longest pair + 13.",
         technique=TECH + ": caller-schedule simulator over request::Parser, seeded chunking/segmentation search vs. reference model"),
     "C02": dict(engine="D1+D2", cat="exploration", ref="DESIGN.md 4/C02",
@@ -60,11 +60,11 @@ CHECKS = {
         note="Trusted: M-stream/M-conn abort rules. Empty Stdout/Stderr records after an abort are treated as optional.",
         technique=TECH + ": caller-schedule simulator + deterministic executor, abort placed at seeded record positions"),
     "C12": dict(engine="D2", cat="fault_enumeration", ref="DESIGN.md 4/C12",
-        text="Per seeded scripted connection the fault points are enumerated: EOF at every input byte offset, a read error at every read call, a one-shot write error and a one-shot zero-length write at every write call, each in a fresh run replaying the script's choice list. Checked: termination without panic or spinning, no handler for an incompletely received preamble, end-of-file seen by a handler only behind a delivered terminator (short reads surface as errors), no write after a failed write, no transport read after a reported read error (error kinds ConnectionReset / Interrupted / TimedOut / Other drawn per script), log = well-formed prefix consistent with the handler log. Scenario hostile_traffic: the script under the C03 mutation operators (or random bytes), ungated, then end-of-file: termination without panic or spinning, output = server records only.",
-        note="Trusted: two spin detectors - the executor step cap for tasks that are re-polled for ever, and a per-poll cap on transport calls (2 000 000) for a poll that keeps calling the transport without returning; a poll that loops without touching the transport would still hang the check. Handlers propagate I/O errors. The fault list also contains a flush error at every flush call; a share of the scripts use concurrent writer sub-tasks that are dropped where they stand when one fails.",
+        text="Per seeded scripted connection the fault points are enumerated: EOF at every input byte offset, a read error at every read call, a one-shot write error and a one-shot zero-length write at every write call, each in a fresh run replaying the choices of the fault-free run exactly up to the fault. A third of the scripts contain a request the client aborts; a handler that got the abort signal may write a last line before it passes the signal on (and returns the write's error if that fails). Checked: termination without panic or spinning, no handler for an incompletely received preamble, end-of-file seen by a handler only behind a delivered terminator (short reads surface as errors), no write after a failed write, no transport read after a reported read error (error kinds ConnectionReset / Interrupted / TimedOut / Other drawn per script), log = well-formed prefix consistent with the handler log. Scenario hostile_traffic: the script under the C03 mutation operators (or random bytes), ungated, then end-of-file: termination without panic or spinning, output = server records only.",
+        note="Trusted: two spin detectors - the executor step cap for tasks that are re-polled for ever, and a per-poll cap on transport calls (2 000 000) for a poll that keeps calling the transport without returning; a poll that loops without touching the transport would still hang the check. Handlers propagate I/O errors. The fault list also contains a flush error at every flush call; a share of the scripts (those without aborted requests) use concurrent writer sub-tasks that are dropped where they stand when one fails.",
         technique=TECH + ": fault-point enumeration over a replayed seeded script (EOF / read error / write error / zero write at every index)"),
     "C14": dict(engine="D2+D3+D5", cat="exploration", ref="DESIGN.md 4/C14",
-        text="Connection side: Runner::shutdown requested as a scheduler event at a seeded step (before the first read, mid-preamble, during the handler, during close, between requests, idle); started requests complete with their EndRequest, no handler starts in a poll that begins after the request, idle connections stop without another transport read, the shutdown future is Ready only after the token is dropped and its task is woken for it. Wait group: real threads under a serialising scheduler (one baton, seeded choice of the next thread at every harness operation, Waker callback and verif-hooks point) explore the interleavings of token drops with polls of the shutdown future, including the last drop landing between the liveness check and the waker registration and between registration and the drop of the temporary reference; Ready never early, no lost wake-up, and once Ready is seen a request on a clone of the runner (limit = number of tokens) is served at once (a dropped token no longer occupies its slot). Scenario multi_conn_shutdown stops 1..4 (one case in 50: 65..260) keep-alive connections of one runner at seeded stages: each is woken and stops, no handler starts afterwards, the shutdown future is Ready exactly when the last one is gone. The same clauses are additionally sampled under Miri's seeded scheduler (64 / 4096 schedules with preemption anywhere).",
+        text="Connection side (client waits for each EndRequest or, in a quarter of the runs, pipelines its requests): Runner::shutdown requested as a scheduler event at a seeded step (before the first read, mid-preamble, during the handler, during close, between requests, idle); started requests complete with their EndRequest, no handler starts in a poll that begins after the request, idle connections stop without another transport read, the shutdown future is Ready only after the token is dropped and its task is woken for it. Wait group: real threads under a serialising scheduler (one baton, seeded choice of the next thread at every harness operation, Waker callback and verif-hooks point) explore the interleavings of token drops with polls of the shutdown future, including the last drop landing between the liveness check and the waker registration and between registration and the drop of the temporary reference; Ready never early, no lost wake-up, and once Ready is seen a request on a clone of the runner (limit = number of tokens) is served at once (a dropped token no longer occupies its slot). Scenario multi_conn_shutdown stops 1..4 (one case in 50: 65..260) keep-alive connections of one runner at seeded stages: each is woken and stops, no handler starts afterwards, the shutdown future is Ready exactly when the last one is gone. The same clauses are additionally sampled under Miri's seeded scheduler (64 / 4096 schedules with preemption anywhere).",
         note="Trusted: executor strictness for the wake-up clauses; the thread scheduler is sequentially consistent and does not explore interleavings inside futures' AtomicWaker. A management reply being written by an idle connection may be cut by shutdown (statement is silent).",
         technique=TECH + ": deterministic executor with shutdown as a scheduled event + serialising thread scheduler (baton) over real threads"),
     "C13": dict(engine="D2+D5", cat="exploration", ref="DESIGN.md 4/C13",
